@@ -197,7 +197,7 @@ func GenGenesis(t *rapid.T, p *Profile) lab.GenesisCfg {
 		MinAccepts: uint64(uniRange(t, 1, nSign, "minAccepts")),
 		TimeLimit:  pick(t, []uint64{5, 6, 10, 30, 200}, "timeLimit"),
 		Denom:      "nund",
-		StartID:    pick(t, []uint64{1, 1, 7, 1 << 32, 254, 255, 65534, 1<<32 - 2}, "entStart"),
+		StartID:    pick(t, []uint64{1, 1, 2, 3, 7, 1 << 32, 254, 255, 65534, 1<<32 - 2}, "entStart"),
 	}
 	perm2 := rapid.Permutation(idx).Draw(t, "wlPerm")
 	ent.Whitelist = append([]int{}, perm2[:uniRange(t, 1, 4, "nWL")]...)
